@@ -26,7 +26,8 @@
     once_on_trees stage_counts_matches late_registration_applies_from_there_on lazy_eq_eager_late
     select_is_path_select real_once_on_trees
     xpath_spec_eq_marks_spec marks_are_xpath_matches_every_strategy real_template_rewrites_xpath_matches
-    xpath_criterion_is_nonpositional
+    xpath_criterion_is_nonpositional buffer_hint_irrelevant_late
+    once_replaces_first_match real_once_replaces_first_match
 -/
 import Genshi.Lemmas.MatchSync
 import Genshi.Lemmas.MatchPipe
@@ -48,6 +49,8 @@ import Genshi.Lemmas.MatchLate
 import Genshi.Lemmas.MatchSelect
 import Genshi.Lemmas.MatchRealOnce
 import Genshi.Lemmas.MatchXpInst
+import Genshi.Lemmas.MatchLateHints
+import Genshi.Lemmas.MatchRealOnceTree
 import Genshi.Props.C05
 namespace Genshi.Props.C12
 open Genshi Genshi.Match
@@ -719,6 +722,27 @@ example : Segmented docLate := by
   · intro st; simp [evs, track, S, E]
 example : (run 30 0 none docLate []).map (·.2) = some [S 'a', E 'a', S 'w', S 'b', E 'b', E 'w'] := by decide
 
+/-- **buffer_hint_irrelevant with registrations inside the stream** (`Segmented`: `py:match`
+    declarations between closed segments of the template).  Take two streams that differ only in the
+    `buffer` hints of the templates they register (`items'`: any assignment of the hint) and two initial
+    template lists that differ only in their `buffer` hints; unbuffered bodies call `select()` at most
+    once.  The automaton that honours the hints of `items'`/`mts'` yields, given enough fuel, exactly the
+    output of the eager filter (every content buffered) over `items`/`mts`, and leaves the same template
+    list up to the hints.  Paths are unrestricted (positional predicates included). -/
+theorem buffer_hint_irrelevant_late {σ : Type} (items items' : List (Item σ)) (hseg : Segmented items)
+    (hitems : items'.map Item.bufOn = items.map Item.bufOn) (f : Nat) (mts mts' : List (MT σ))
+    (r : List (MT σ) × List Event) (hsame : mts'.map bufOn = mts.map bufOn)
+    (hok : ∀ t ∈ mts', LazyOK t) (hreg : ∀ t, Item.reg t ∈ items' → LazyOK t)
+    (h : run f 0 none items mts = some r) :
+    ∃ F0 m', m'.map bufOn = r.1.map bufOn ∧ ∀ F, F0 ≤ F → runL F .idle items' mts' = some (.idle, m', r.2) :=
+  buffer_hint_irrelevant_seg items items' hseg hitems f mts mts' r hsame hok hreg h
+
+/-- non-vacuity: `docLate` with the late declaration unbuffered (`buffer="false"`, one `select`) -/
+def docLateU : List (Item PSt) :=
+  [.ev (S 'a'), .ev (E 'a'), .reg { tWrap with buffered := false }, .ev (S 'a'), .ev (S 'b'), .ev (E 'b'), .ev (E 'a')]
+example : docLateU.map Item.bufOn = docLate.map Item.bufOn := rfl
+example : (runL 30 .idle docLateU []).map (·.2.2) = some [S 'a', E 'a', S 'w', S 'b', E 'b', E 'w'] := by decide
+
 /-! ### select() inside the body is `Path.select` of the path model -/
 
 open Genshi.Path in
@@ -865,5 +889,54 @@ example : patternMarks dU.paths [] [] none (forestR.headD (.leaf (T 'u')))
     = [false, true, true, false, true, false, false, false] := by decide +kernel
 
 end XpExamples
+
+/-! ### `once` as a tree rewrite of its own -/
+
+/-- **`once="true"` replaces the first match in document order — and only that** (any number of matching
+    elements).  The stage of a lawful template with the hint (slot `i`, live, in sync with the open
+    ancestors `anc`), on every forest: the output is `onceList` — the first element, in document order, at
+    which the matcher fires in the state reached along its ancestors is replaced by the body instantiated
+    with START · its content as it stands · END (the template is retired before the content is matched,
+    so nothing inside is replaced, whatever `recursive` says); every event before, inside and after it
+    passes unchanged.  Afterwards the slot is retired if an element matched, and otherwise back in the
+    state it had.  (`once_on_trees` is the special case of at most one match, where this is `specList`.) -/
+theorem once_replaces_first_match {σ : Type} (t : MT σ) (b : σ) (i : Nat) (hl : Lawful t) (ho : t.once = true)
+    (f : Nat) (ns : List Node) (anc : List Open) (M : List (MT σ)) (r : List (MT σ) × List Event)
+    (hns : okList ns = true) (hslot : SlotAt i t b anc M)
+    (h : run f i (some (i + 1)) (evItems (flattenList ns)) M = some r) :
+    r.2 = (onceList t b anc ns).1 ∧
+      (if (onceList t b anc ns).2 then RetAt i r.1 else SlotAt i t b anc r.1) :=
+  once_stage_is_onceList t b i hl ho f ns anc M r hns hslot h
+
+section OnceExamples
+/-- `b` → `<x/>`, once -/
+def tBonce : MT PSt := mkMT (.single (some ['b']) none) [.ev (S 'x'), .ev (E 'x')] ⟨false, true, false⟩
+/-- `<a><c/><b><b/></b></a><b/>`: three elements match `b` -/
+def forestB : List Node :=
+  [.elem ⟨[], ['a']⟩ [] [.elem ⟨[], ['c']⟩ [] [], .elem ⟨[], ['b']⟩ [] [.elem ⟨[], ['b']⟩ [] []]], .elem ⟨[], ['b']⟩ [] []]
+example : countList tBonce {} [] forestB = 3 := by decide
+/-- only the first `<b>` (document order) is replaced -/
+example : onceList tBonce {} [] forestB = ([S 'a', S 'c', E 'c', S 'x', E 'x', E 'a', S 'b', E 'b'], true) := by decide
+example : (run 30 0 (some 1) (evItems (flattenList forestB)) [tBonce]).map (·.2) = some (onceList tBonce {} [] forestB).1 := by
+  decide
+example : SlotAt 0 tBonce ({} : PSt) [] [tBonce] := ⟨tBonce, rfl, Shape.refl _, rfl, rfl⟩
+end OnceExamples
+
+open Genshi.Path in
+/-- **The same for real templates** (`<py:match path=… once="true">`, paths without position tests, any
+    union, any strategy): the stage yields the forest with the first element — document order — at which
+    `Path(text).test(ignore_context=True)` answers `True` replaced by the body, nothing else. -/
+theorem real_once_replaces_first_match (ns : NsMap) (vs : Vars) (ds : List Decl) (hok : ∀ d ∈ ds, d.ok ns vs)
+    (i : Nat) (d : Decl) (hd : ds[i]? = some d) (ho : d.hints.matchOnce = true)
+    (f : Nat) (forest : List Node) (r : List (MT RSt) × List Event) (hns : okList forest = true)
+    (h : run f i (some (i + 1)) (evItems (flattenList forest)) (ds.map (Decl.real ns vs)) = some r) :
+    r.2 = (onceList (d.real ns vs) (d.real ns vs).st [] forest).1 :=
+  real_once_stage_is_onceList ns vs ds hok i d hd ho f forest r hns h
+
+/-- non-vacuity: `a//c[@k]` with `once` on `forestR` doubled — two matches, the first one replaced -/
+example : (onceList ({ dACk with hints := ⟨false, true, false⟩ : Decl }.real [] [])
+      ({ dACk with hints := ⟨false, true, false⟩ : Decl }.real [] []).st [] (forestR ++ forestR)).1
+    = ((run 90 0 (some 1) (evItems (flattenList (forestR ++ forestR)))
+        [{ dACk with hints := ⟨false, true, false⟩ : Decl }.real [] []]).map (·.2)).getD [] := by decide +kernel
 
 end Genshi.Props.C12
